@@ -15,6 +15,8 @@ def main(argv):
     from vf.common import load
     ns = load()
     mod = registry.module(prop)
+    from vf import anchors
+    anchors.start()
     t0 = time.time()
     done = 0
     samples = []
@@ -39,6 +41,7 @@ def main(argv):
                 res["sample"] = case
             fh.write(json.dumps(res, default=str) + "\n")
             done += 1
+        fh.write(json.dumps(dict(kind="anchors", lines=anchors.executed())) + "\n")
         fh.write(json.dumps(dict(kind="bye", done=done, wall=time.time() - t0)) + "\n")
 
 
